@@ -591,7 +591,7 @@ fn maxed(t: &mut Tape) -> Vec<u8> {
 /// sentinel as random, legacy version 0x0303, and a block holding supported_versions in each of its encodings (incl. the empty
 /// list), key_share, cookie, pre_shared_key; ClientHello with the same kind of block. As a message, a body, or inside a record;
 /// half of them corrupted afterwards.
-fn tls13_hellos(t: &mut Tape) -> Vec<u8> {
+pub fn tls13_hellos(t: &mut Tape) -> Vec<u8> {
     let ext = gen_tls13_server_ext(t);
     let random = match t.below(4) {
         0 | 1 => HRR_RANDOM.to_vec(),
@@ -609,7 +609,13 @@ fn tls13_hellos(t: &mut Tape) -> Vec<u8> {
         MHs::ClientHello { version: 0x0303, random, sid, ciphers: vec![0x1301, 0x1302, gen_cipher_id(t)], comp: vec![0], ext: Some(ext) }
     };
     let mut e = Enc::new();
-    match t.below(4) {
+    match t.below(6) {
+        // the extension block on its own (the extension parsers decode and print what the hello parsers keep opaque)
+        4 | 5 => {
+            if let MHs::ServerHello { ext: Some(x), .. } | MHs::ClientHello { ext: Some(x), .. } = &h {
+                e.bytes(x);
+            }
+        }
         0 => h.encode_body(&mut e),
         1 => {
             let m = h.to_bytes();
